@@ -88,7 +88,7 @@ Fresh(l, cfg, prev) ==
    reqs |-> << >>, hmap |-> << >>, recn |-> 0,
    owed |-> << >>, aw |-> 0, sids |-> {},
    unres |-> {}, dcids |-> {}, dcconn |-> FALSE, pe |-> "", pio |-> "", c10off |-> FALSE, dcan |-> FALSE, taint |-> 0, connectLen |-> 0, d9b |-> FALSE,
-   lastDone |-> 0, afterPing |-> FALSE, pingAt |-> -1, pingDoneAt |-> -1, pingOut |-> FALSE, pcan |-> FALSE, pfrag |-> FALSE, overslept |-> TRUE, wake |-> -1,
+   lastDone |-> 0, afterPing |-> FALSE, pingAt |-> -1, pingDoneAt |-> -1, pingOut |-> FALSE, pcan |-> FALSE, pfrag |-> FALSE, cmid |-> FALSE, overslept |-> TRUE, wake |-> -1,
    dead |-> FALSE, ioDead |-> << 0, 0, 0 >>, lastio |-> << 0, 0, 0 >>,
    sum |-> EmptySum, prev |-> prev, mark |-> 0,
    lastobs |-> [live |-> FALSE, q |-> TRUE, h |-> << >>],
@@ -114,7 +114,7 @@ WireProps(e) == IF e.hascorr THEN << Prop(9, 0, e.corr, << >>) >> \o e.props ELS
 
 NewReq(h, kind, e) ==
   [kind |-> kind, l |-> h.l, ep |-> h.epoch, cc |-> h.ci, st |-> "pend", ph |-> "new",
-   id |-> 0, bytes |-> << >>, sc |-> 0, n |-> 0, rsc |-> 0, rn |-> 0, recseq |-> 0,
+   id |-> 0, bytes |-> << >>, sc |-> 0, n |-> 0, rsc |-> 0, rn |-> 0, recseq |-> 0, donel |-> 0,
    refp |-> "", hidx |-> -1, e |-> e]
 
 PubMatches(r, d) ==
@@ -372,6 +372,18 @@ OutDisconnect(h, d) ==
             ELSE Viol(h, "C09", "DISCONNECT on the wire differs from the request")
   IN [h1 EXCEPT !.wdisc = TRUE]
 
+\* the identifier field of a request packet is zero (QoS > 0 PUBLISH: behind the topic; SUBSCRIBE /
+\* UNSUBSCRIBE: the first two bytes of the variable header)
+ZeroId(pkt) ==
+  LET f == Frame(pkt)  t == pkt[1] \div 16  q == (pkt[1] \div 2) % 4 IN
+  IF f.st # "ok" THEN FALSE
+  ELSE LET b == f.hdr IN
+       IF t \in {SUBSCRIBE, UNSUBSCRIBE} THEN Len(pkt) >= b + 2 /\ pkt[b + 1] = 0 /\ pkt[b + 2] = 0
+       ELSE IF t = PUBLISH /\ q > 0 THEN
+            Len(pkt) >= b + 2 /\ LET tl == pkt[b + 1] * 256 + pkt[b + 2] IN
+                                 Len(pkt) >= b + 4 + tl /\ pkt[b + 3 + tl] = 0 /\ pkt[b + 4 + tl] = 0
+       ELSE FALSE
+
 OnOut(h, pkt) ==
   LET d0 == DecClient(pkt)
       d == IF d0.st = "badflags" THEN DecClientLax(pkt) ELSE d0
@@ -380,7 +392,8 @@ OnOut(h, pkt) ==
                   /\ LET k == FindReq(h, d) IN k # 0 /\ h.reqs[k].cc < h.ci
       h0 == [Tick(Tick2(h, "C01", "C09"), "C14") EXCEPT !.wn = @ + 1, !.lastout = (pkt[1] \div 16),
                       !.sum.out = Append(@, << h.ci, ClearDup(pkt) >>),
-                      !.pingOut = (pkt[1] \div 16 = PINGREQ), !.afterPing = (pkt[1] \div 16 = PINGREQ)]
+                      !.pingOut = (pkt[1] \div 16 = PINGREQ), !.afterPing = (pkt[1] \div 16 = PINGREQ),
+                      !.cmid = IF d0.st = "ok" THEN FALSE ELSE @]
       \* an acknowledgement that echoes identifier 0 of an irregular inbound packet is not held
       \* against the client
       echo0 == h.dcconn /\ (pkt[1] \div 16) \in {PUBACK, PUBREC, PUBCOMP}
@@ -390,8 +403,15 @@ OnOut(h, pkt) ==
       \* once the outbound stream is garbled nothing written later on this transport can be attributed
       \* to a request: the other monitors stop for the rest of this run (as for D2)
       \* C09: what cannot be decoded is not what the application asked to send
-      h1b == IF d.st # "ok" /\ Len(h1a.v) > Len(h0.v)
-             THEN Viol(h1a, "C09", "an outbound packet cannot be decoded by an independent MQTT 5 decoder") ELSE h1a
+      h1b0 == IF d.st # "ok" /\ Len(h1a.v) > Len(h0.v)
+              THEN Viol(h1a, "C09", "an outbound packet cannot be decoded by an independent MQTT 5 decoder") ELSE h1a
+      \* C13: the packet a cancelled call had left half-written did not survive (something cut into it)
+      h1b1 == IF d.st # "ok" /\ Len(h1a.v) > Len(h0.v) /\ h.cmid
+              THEN Viol(Tick(h1b0, "C13"), "C13", "the packet a cancelled operation left half-written was corrupted by what followed")
+              ELSE h1b0
+      \* C07: a request packet without (or with a zero) identifier
+      h1b == IF d.st # "ok" /\ Len(h1a.v) > Len(h0.v) /\ ZeroId(pkt)
+             THEN Viol(Tick(h1b1, "C07"), "C07", "a PUBLISH / SUBSCRIBE / UNSUBSCRIBE carries identifier 0 (or none)") ELSE h1b1
       h1 == IF d.st # "ok" /\ Len(h1a.v) > Len(h0.v) THEN [C17Owed(h, h1b) EXCEPT !.taint = 2] ELSE h1a
       h2 == Check(h1, (h.wn = 0) = (pkt[1] \div 16 = CONNECT), "C01",
                   "CONNECT must be the first and only the first packet on a transport")
@@ -476,12 +496,12 @@ InAck(h, d) ==
        THEN IF rc >= 128 THEN [h EXCEPT !.op.dc = TRUE] ELSE h
        ELSE IF rc < 128
        THEN [h EXCEPT !.reqs[k].ph = "rec", !.reqs[k].recseq = h.recn + 1, !.recn = @ + 1]
-       ELSE [h EXCEPT !.reqs[k].ph = "done", !.op.rej = rc]
+       ELSE [h EXCEPT !.reqs[k].ph = "done", !.reqs[k].donel = h.l, !.op.rej = rc]
     ELSE IF d.t = PUBCOMP THEN
        IF r.ph # "rec" THEN h
-       ELSE [h EXCEPT !.reqs[k].ph = "done", !.op.rej = IF rc >= 128 THEN rc ELSE @]
+       ELSE [h EXCEPT !.reqs[k].ph = "done", !.reqs[k].donel = h.l, !.op.rej = IF rc >= 128 THEN rc ELSE @]
     ELSE IF d.t = PUBACK /\ r.ph # "new" THEN h
-    ELSE [h EXCEPT !.reqs[k].ph = "done", !.op.rej = IF rc >= 128 THEN rc ELSE @]
+    ELSE [h EXCEPT !.reqs[k].ph = "done", !.reqs[k].donel = h.l, !.op.rej = IF rc >= 128 THEN rc ELSE @]
 
 InConnack(h, d) ==
   LET P == d.props
@@ -586,7 +606,10 @@ ObsChecks(h0, obs) ==
                                   /\ \E j \in (h.hmap[i] + 1)..Len(h.reqs) :
                                          /\ h.reqs[j].ep = h.epoch /\ h.reqs[j].ph # "done"
                                          /\ h.reqs[j].st \in {"acc", "unk", "pend"}
-                                         /\ h.reqs[j].id \in {0, h.reqs[h.hmap[i]].id})
+                                         /\ h.reqs[j].id \in {0, h.reqs[h.hmap[i]].id}
+                                         \* ... and was made after the handle's operation had completed
+                                         \* (an identifier handed out while still in use is no aliasing)
+                                         /\ h.reqs[j].l > h.reqs[h.hmap[i]].donel)
             ELSE h1
       \* C05: in particular every handle of a discarded session reports invalidated
       stale == {i \in wrong : h.reqs[h.hmap[i]].st # "dc" /\ Truth(h, h.hmap[i]) = "i"}
@@ -611,7 +634,7 @@ IoOnDead(h) ==
 StepConn(h, e) ==
   [h EXCEPT !.ci = @ + 1, !.wtail = << >>, !.wn = 0, !.wdisc = FALSE, !.rtail = << >>,
             !.btail = << >>, !.ack = NoAck, !.aw = 0, !.unres = {}, !.dcan = FALSE, !.taint = 0,
-            !.dead = FALSE, !.c10off = FALSE, !.dcconn = FALSE, !.pio = "", !.pingAt = -1, !.pingOut = FALSE, !.pcan = FALSE, !.pfrag = FALSE, !.overslept = TRUE, !.up = FALSE,
+            !.dead = FALSE, !.c10off = FALSE, !.dcconn = FALSE, !.pio = "", !.pingAt = -1, !.pingOut = FALSE, !.pcan = FALSE, !.pfrag = FALSE, !.cmid = FALSE, !.overslept = TRUE, !.up = FALSE,
             !.op = [name |-> "conn", l |-> h.l, prog |-> FALSE, nin |-> 0, bad |-> FALSE,
                     dc |-> FALSE, disc |-> FALSE, unexp |-> FALSE, fault |-> FALSE, eof |-> FALSE,
                     rej |-> -1, hasmsg |-> FALSE, deadcall |-> FALSE, healthy |-> e.healthy, nofit |-> FALSE]]
@@ -656,8 +679,10 @@ RetDead(h0, e) ==
       h2 == Check(h1, e.obs.io = h.op.io0, "C11", "call on a dead handle touched the transport")
       \* C19: a request on a dead handle is refused and leaves no trace
       k == IF "req" \in DOMAIN h.op THEN h.op.req ELSE 0
+      h3 == IF k # 0 /\ ~okres
+            THEN Viol(h2, "C19", "a request on a dead handle was not refused with the disconnected error") ELSE h2
   IN IF k = 0 THEN h2
-     ELSE [Tick(h2, "C19") EXCEPT !.reqs[k].st = "ref", !.reqs[k].refp = "C19"]
+     ELSE [Tick(h3, "C19") EXCEPT !.reqs[k].st = "ref", !.reqs[k].refp = "C19"]
 
 \* C12 / C17: a session that has room is usable.  A QoS > 0 publish is refused with NotReady only
 \* when the broker's window is full (publishes accepted and not resolved by an acknowledgement the
@@ -759,8 +784,9 @@ C20Check(h0, d, pr) ==
         ELSE ow.r = "err"
       h1 == Check(h, pr.offered = hasrt, "C20", "a reply is offered exactly when the request carries a response topic")
       h2 == IF hasrt
-            THEN Check(Check(h1, Good(pr.plain, << >>), "C20", "reply() does not address the requester's response topic / correlation data"),
-                       Good(pr.decorated, user), "C20", "reply() with added user properties loses the response target")
+            THEN Check(Check(Check(h1, Good(pr.plain, << >>), "C20", "reply() does not address the requester's response topic / correlation data"),
+                             Good(pr.decorated, user), "C20", "reply() with added user properties loses the response target"),
+                       Good(pr.layered, user), "C20", "reply() whose caller properties were set twice loses the response target")
             ELSE h1
   IN Check(h2, \A i \in 1..Len(pr.owned) : OwnedOk(pr.owned[i]), "C20",
            "reply_owned(): wrong target, or a capacity overflow that is not reported as an error")
@@ -907,6 +933,7 @@ StepCancel(h, e) ==
       wrote == o.name = "disconnect" /\ o.prog
   IN [h2 EXCEPT !.op = NoOp, !.sum.res = Append(@, << o.name, "cancel", "", -1 >>),
                 !.dcan = @ \/ wrote, !.pcan = @ \/ h.pingOut \/ h.pingAt >= 0,
+                !.cmid = @ \/ (h.wtail # << >> /\ ~wrote),
                 !.taint = IF wrote /\ h.wtail # << >> /\ @ = 0 THEN 1 ELSE @]
 
 StepW(h, e) ==
